@@ -163,6 +163,39 @@ theorem encode_mod (a : List Char) (len x : Nat) (ha : 0 < a.length) :
       rw [Nat.pow_succ, Nat.mul_comm, Nat.mod_mul_right_div_self]
     rw [h1, h2, ← ih]
 
+/-- conversely the code is injective on hashes below `|alphabet| ^ len` (distinct symbols): with `encode_mod`, two contents share a
+name **exactly** when their hashes agree modulo `37⁴` — the collisions of `name_from_content` are those of the hash, never an
+artefact of the encoder. -/
+theorem encode_injective (a : List Char) (hn : a.Nodup) (ha : 0 < a.length) (len x y : Nat)
+    (hx : x < a.length ^ len) (hy : y < a.length ^ len) (h : encode a len x = encode a len y) : x = y := by
+  induction len generalizing x y with
+  | zero => simp at hx hy; omega
+  | succ n ih =>
+    simp only [encode, List.cons.injEq] at h
+    have hm : x % a.length = y % a.length :=
+      (List.getD_inj (Nat.mod_lt _ ha) (Nat.mod_lt _ ha) hn).mp h.1
+    have hdx : x / a.length < a.length ^ n := by
+      rw [Nat.div_lt_iff_lt_mul ha]; rw [Nat.pow_succ] at hx; exact hx
+    have hdy : y / a.length < a.length ^ n := by
+      rw [Nat.div_lt_iff_lt_mul ha]; rw [Nat.pow_succ] at hy; exact hy
+    have hd := ih (x / a.length) (y / a.length) hdx hdy h.2
+    have e1 := Nat.div_add_mod x a.length
+    have e2 := Nat.div_add_mod y a.length
+    rw [hd, hm] at e1
+    omega
+
+theorem base37_nodup : base37.Nodup := by decide
+
+theorem content_code_eq_iff (h1 h2 : Nat) : encode base37 4 h1 = encode base37 4 h2 ↔ h1 % 37 ^ 4 = h2 % 37 ^ 4 := by
+  have hl : base37.length = 37 := by decide
+  constructor
+  · intro h
+    rw [encode_mod base37 4 h1 (by rw [hl]; decide), encode_mod base37 4 h2 (by rw [hl]; decide)] at h
+    have := encode_injective base37 base37_nodup (by rw [hl]; decide) 4 _ _ (Nat.mod_lt _ (by rw [hl]; decide)) (Nat.mod_lt _ (by rw [hl]; decide)) h
+    rw [hl] at this; exact this
+  · intro h
+    rw [encode_mod base37 4 h1 (by rw [hl]; decide), encode_mod base37 4 h2 (by rw [hl]; decide), hl, h]
+
 /-- two different hashes can share a code: names are not injective in the content -/
 theorem code_collision : encode base37 4 0 = encode base37 4 (37 ^ 4) := by decide
 
